@@ -166,6 +166,8 @@ def check_property(pid, tier='quick', seed=0):
             pass
     # ---- remaining failures: search a counter-model, replay
     replay_dir = os.path.join(HERE, 'replays', pid)
+    if os.environ.get('PYVC_EVIDENCE_DIR'):
+        replay_dir = os.path.join(os.environ['PYVC_EVIDENCE_DIR'], 'replays', pid)
     for (r, o, _) in rest:
         verdict, path = classify_failure(pid, r, o, tier, replay_dir)
         if verdict == 'violation':
@@ -197,8 +199,9 @@ def check_property(pid, tier='quick', seed=0):
     wall = time.time() - t0
     ev = build_evidence(pid, tier, seed, results, total, discharged, backends, solver_time, known_lines,
                         violations, undecided_funcs, undecided, errors, bounded, wall)
-    os.makedirs(os.path.join(HERE, 'evidence'), exist_ok=True)
-    with open(os.path.join(HERE, 'evidence', pid + '.json'), 'w') as f:
+    evdir = os.environ.get('PYVC_EVIDENCE_DIR') or os.path.join(HERE, 'evidence')
+    os.makedirs(evdir, exist_ok=True)
+    with open(os.path.join(evdir, pid + '.json'), 'w') as f:
         json.dump(ev, f, indent=1, sort_keys=True)
     print('%s: functions=%d obligations=%d discharged=%d known-findings=%d violations=%d undecided=%d errors=%d wall=%.1fs'
           % (pid, len(keys), total, discharged, len(known_lines), len(violations),
@@ -239,7 +242,9 @@ def classify_failure(pid, r, o, tier, replay_dir):
     from . import refute
     os.makedirs(replay_dir, exist_ok=True)
     h = hashlib.sha256((o['name'] + str(o['path'])).encode()).hexdigest()[:12]
-    path = os.path.join('replays', pid, '%s.json' % h)
+    path = os.path.join(replay_dir, '%s.json' % h)
+    if path.startswith(HERE + os.sep):
+        path = os.path.relpath(path, HERE)
     info = dict(property=pid, obligation=o['name'], function=r['key'], file=r['file'], line=o['line'],
                 source_sha256=r['sha'], status=o['status'], backend=o['backend'], path_decisions=o['path'],
                 solver_detail=o.get('detail', ''), smt2_tail=o.get('smt2_tail', ''))
